@@ -36,6 +36,11 @@ LEVEL_NOTE = ("Partial: proof about a hand-written model, tied to the code by di
               "a batch with several sequence puts of one prefix publishes their keys in order and is modelled by its last key. 'Greater than every existing key of the prefix' "
               "is claimed for the keys below prefix-%020d(2^64-1) (all keys of the prefix in seq_wf states); a plain key such as 's-9' above that bound is never looked at. "
               "Deleting the key a batch itself generated (same request) still tells the waiters that key. "
+              "WriteLast against a CONCURRENT reader is modelled at the granularity of its channel operations (ch_step): c16_write_last_never_blocks (every writer step is enabled, "
+              "at most three of its own steps whatever the reader does), c16_write_last_leaves_latest, and c16_write_last_blocking_variant_refuted for a blocking drain; what the Go "
+              "scheduler really interleaves cannot be forced from outside the function, so the 'chan' leg is a stress test of the real channel.OverrideChannel and of kv.DB.ProcessWrite "
+              "against a polling reader (450k WriteLast calls in bursts of 1/2/64 and 550 requests of 64/2 sequence puts per quick run, each dispatch under a 2 s watchdog): a "
+              "blocking drain was hit in 10 of 10 runs, typically in the first case; a variant with a narrower window could be missed by it - the theorem, not the leg, carries that clause. "
               "The public RPC (publicRpcServer.GetSequenceUpdates) forwards every value of the waiter's channel to the client's stream unchanged (the identity), so "
               "c16_latest_observed composes with it without a further model; that loop is exercised by the 'rpc' leg (real rf=1 LeaderController, in-memory stream), where the "
               "specification is evaluated directly: after a subscription and after every sequence put the stream's last value must become the key to observe (bounded wait of 3 s; "
@@ -55,15 +60,18 @@ RULE = ("seq: one case = 15-40 requests against a fresh real DB, 1-3 puts each, 
         "'A,B subscribe; A closes; C subscribes; puts; B closes; puts', compared with the tracker model (tstep) and checked directly; "
         "30% of the sub / msub / rpc cases run on a shard with notifications disabled (E:0: db.EnableNotifications(false), resp. NewTermOptions{EnableNotifications:false}): "
         "what subscribers observe must not depend on that switch (c16_latest_observed_notifications_disabled); "
+        "chan: real override channel / real DB with a polling reader goroutine, bursts of WriteLast / requests of many sequence puts of one prefix, watchdog per dispatch; "
         "rpc: one case = 8-20 steps through WriteBlock of a real rf=1 leader (sequence puts, deletes of the highest / of middle generated keys, other puts) with subscribers attached "
         "through publicRpcServer.GetSequenceUpdates before / between / after the writes, on the prefix and on another one, and leaving (stream context cancelled) in any order; distinct by generator sub-seed")
 LEGS = [
-    {"name": "seq", "harness": "db", "model": "db", "n_quick": 400, "n_thorough": 20000, "args": ["-mode", "c16seq"],
+    {"name": "seq", "harness": "db", "model": "db", "n_quick": 300, "n_thorough": 20000, "args": ["-mode", "c16seq"],
      "corpus": "corpus/db16/seq", "timeout": 900, "timeout_thorough": 3000},
     {"name": "sub", "harness": "db", "model": "db", "n_quick": 1500, "n_thorough": 60000, "args": ["-mode", "c16sub"],
      "corpus": "corpus/db16/sub", "timeout": 900, "timeout_thorough": 3000},
-    {"name": "rpc", "harness": "db", "model": None, "n_quick": 300, "n_thorough": 20000, "args": ["-mode", "c16rpc"],
+    {"name": "rpc", "harness": "db", "model": None, "n_quick": 200, "n_thorough": 20000, "args": ["-mode", "c16rpc"],
      "corpus": "corpus/db16/rpc", "timeout": 900, "timeout_thorough": 3000},
+    {"name": "chan", "harness": "db", "model": None, "n_quick": 100, "n_thorough": 3000, "args": ["-mode", "c16chan"],
+     "timeout": 900, "timeout_thorough": 3000},
 ]
 REGISTERED = True
 
